@@ -176,9 +176,22 @@ func (kc *Cache[V]) ForEach(k []byte, fn func(e Entry[V]) bool) {
 	defer kc.mu.RUnlock()
 	d := Distance(kc.locus, k)
 	lz := LeadingZeros(d)
-	// everything in these buckets will have lz bits matching k.
-	for i := lz; i < len(kc.buckets); i++ {
-		if !kc.buckets[i].forEach(k, fn) {
+	// everything in bucket lz differs from the locus where k does, so it has more than lz bits matching k.
+	if lz < len(kc.buckets) {
+		if !kc.buckets[lz].forEach(k, fn) {
+			return
+		}
+	}
+	// everything in the deeper buckets has exactly lz bits matching k, whatever its bucket:
+	// the buckets must be merged to come out in distance order.
+	if lz+1 < len(kc.buckets) {
+		merged := newBucket[V](kc.locus)
+		for i := lz + 1; i < len(kc.buckets); i++ {
+			for key, e := range kc.buckets[i].entries {
+				merged.entries[key] = e
+			}
+		}
+		if !merged.forEach(k, fn) {
 			return
 		}
 	}
